@@ -1,7 +1,1163 @@
-//! C06: correspondence + oracle runs (sub-commands `c06` / `c06-*`).
+//! C06: ARP resolution on the real stack (`Arp::resolve`, `Arp::demux`, `Arp::listen`,
+//! `Arp::set_subnet`, `Network::send`, `Pci`).
+//!
+//! A case is one LAN: N machines (1..2 taps each) built by the scaffold from the real protocols,
+//! addresses claimed with `Arp::listen` / `Arp::set_subnet` (before the barrier or later), k
+//! resolutions started by a harness application (`Arp::resolve`, spawned so that they overlap),
+//! and a fault plan over the ARP frames in send order (deliver / drop / delay / duplicate) applied
+//! through the `Network::verif_set_hook` planner.  The paused-clock runtime gives exact virtual
+//! times.  The globally ordered event log (claims, resolve calls, retry rounds reported by the
+//! `Arp::verif_set_trace` hook, frames at send time with their fate, tap deliveries, returns) is
+//! printed as op lines; the Lean driver replays them through the transition system of
+//! `Model/Arp.lean`.  The native oracle evaluates the property from the configuration.
+use crate::scaffold::*;
+use elvis_core::{
+    network::VerifFramePlan,
+    protocols::{
+        arp::{
+            subnetting::{Ipv4Mask, SubnetInfo},
+            verif::ResolveRound,
+        },
+        ipv4::Ipv4Address,
+        AddressPair, Arp,
+    },
+    run_internet_with_timeout,
+};
 use hcommon::*;
+use std::collections::BTreeMap;
+use std::future::Future;
+use std::sync::{Arc, Mutex};
+use std::task::Poll;
+use std::time::Duration;
+
+/// retry budget as the PROPERTY states it (`RESEND_TRIES`, `RESEND_DELAY` of the anchor); the
+/// harness reads the real constants so that the oracle follows an edited budget
+fn tries() -> u64 {
+    Arp::RESEND_TRIES as u64
+}
+fn delay_us() -> u64 {
+    Arp::RESEND_DELAY.as_micros() as u64
+}
+fn budget_us() -> u64 {
+    tries() * delay_us()
+}
+
+#[derive(Clone, Copy, Debug, PartialEq)]
+enum Plan {
+    Deliver,
+    Drop,
+    Delay(u64),
+    Dup(u64),
+}
+impl Plan {
+    fn show(&self) -> String {
+        match self {
+            Plan::Deliver => "d".into(),
+            Plan::Drop => "x".into(),
+            Plan::Delay(d) => format!("l{}", d),
+            Plan::Dup(d) => format!("u{}", d),
+        }
+    }
+    fn parse(s: &str) -> Option<Plan> {
+        Some(match s {
+            "d" => Plan::Deliver,
+            "x" => Plan::Drop,
+            _ if s.starts_with('l') => Plan::Delay(s[1..].parse().ok()?),
+            _ if s.starts_with('u') => Plan::Dup(s[1..].parse().ok()?),
+            _ => return None,
+        })
+    }
+}
+
+#[derive(Clone, Debug)]
+struct Claim {
+    m: usize,
+    ip: u32,
+    /// `None` = in `start()` before the barrier
+    at: Option<u64>,
+    /// `Some((mask bits, gateway))` = `set_subnet`, `None` = `listen`
+    sub: Option<(u32, u32)>,
+}
+
+#[derive(Clone, Debug)]
+struct Res {
+    rid: usize,
+    m: usize,
+    local: u32,
+    remote: u32,
+    slot: u32,
+    at: u64,
+}
+
+#[derive(Clone, Debug)]
+struct Case {
+    mtu: Option<u16>,
+    lat_us: u64,
+    dur_us: u64,
+    slots: Vec<usize>,
+    claims: Vec<Claim>,
+    resolves: Vec<Res>,
+    /// fate of the k-th ARP frame handed to the network (frames beyond the list are delivered)
+    plan: Vec<Plan>,
+}
+
+impl Case {
+    fn to_lines(&self) -> Vec<String> {
+        let mut l = vec![format!(
+            "cfg net mtu={} lat={} dur={}",
+            self.mtu.map(|m| m.to_string()).unwrap_or("-".into()),
+            self.lat_us,
+            self.dur_us
+        )];
+        l.push(format!("cfg machines {}", self.slots.iter().map(|s| s.to_string()).collect::<Vec<_>>().join(",")));
+        for c in &self.claims {
+            l.push(format!(
+                "cfg claim {} {} {} {}",
+                c.m,
+                fmt_addr(c.ip),
+                c.at.map(|t| t.to_string()).unwrap_or("pre".into()),
+                c.sub.map(|(b, g)| format!("{}/{}", b, fmt_addr(g))).unwrap_or("-".into())
+            ));
+        }
+        for r in &self.resolves {
+            l.push(format!("cfg resolve {} {} {} {} {} {}", r.rid, r.m, fmt_addr(r.local), fmt_addr(r.remote), r.slot, r.at));
+        }
+        l.push(format!(
+            "cfg plan {}",
+            if self.plan.is_empty() { "-".to_string() } else { self.plan.iter().map(|p| p.show()).collect::<Vec<_>>().join(",") }
+        ));
+        l
+    }
+
+    fn from_lines<'a>(lines: impl IntoIterator<Item = &'a str>) -> Option<Case> {
+        let mut c = Case { mtu: None, lat_us: 0, dur_us: 0, slots: vec![], claims: vec![], resolves: vec![], plan: vec![] };
+        for line in lines {
+            let w: Vec<&str> = line.split_whitespace().collect();
+            match w.as_slice() {
+                ["cfg", "net", mtu, lat, dur] => {
+                    let mtu = mtu.strip_prefix("mtu=")?;
+                    c.mtu = if mtu == "-" { None } else { Some(mtu.parse().ok()?) };
+                    c.lat_us = lat.strip_prefix("lat=")?.parse().ok()?;
+                    c.dur_us = dur.strip_prefix("dur=")?.parse().ok()?;
+                }
+                ["cfg", "machines", s] => c.slots = s.split(',').map(|x| x.parse().unwrap_or(1)).collect(),
+                ["cfg", "claim", m, ip, at, sub] => c.claims.push(Claim {
+                    m: m.parse().ok()?,
+                    ip: parse_addr(ip)?,
+                    at: if *at == "pre" { None } else { Some(at.parse().ok()?) },
+                    sub: if *sub == "-" {
+                        None
+                    } else {
+                        let (b, g) = sub.split_once('/')?;
+                        Some((b.parse().ok()?, parse_addr(g)?))
+                    },
+                }),
+                ["cfg", "resolve", rid, m, local, remote, slot, at] => c.resolves.push(Res {
+                    rid: rid.parse().ok()?,
+                    m: m.parse().ok()?,
+                    local: parse_addr(local)?,
+                    remote: parse_addr(remote)?,
+                    slot: slot.parse().ok()?,
+                    at: at.parse().ok()?,
+                }),
+                ["cfg", "plan", p] => {
+                    if *p != "-" {
+                        c.plan = p.split(',').map(Plan::parse).collect::<Option<Vec<_>>>()?;
+                    }
+                }
+                _ => {}
+            }
+        }
+        if c.slots.is_empty() {
+            return None;
+        }
+        Some(c)
+    }
+}
+
+// ------------------------------------------------------------------------------------------
+// execution on the real code
+// ------------------------------------------------------------------------------------------
+
+fn note(log: &Arc<Log>, s: String) {
+    log.push(Ev::Note(s));
+}
+
+fn res_str(r: &Result<u64, ()>) -> String {
+    match r {
+        Ok(m) => format!("ok {}", m),
+        Err(()) => "err".into(),
+    }
+}
+
+fn custom(f: impl Fn(Ctx) -> std::pin::Pin<Box<dyn Future<Output = ()> + Send>> + Send + Sync + 'static) -> ActionKind {
+    ActionKind::Custom(Arc::new(f))
+}
+
+fn claim_action(c: &Claim) -> Action {
+    let c = c.clone();
+    Action {
+        at: c.at,
+        kind: custom(move |ctx: Ctx| {
+            let c = c.clone();
+            Box::pin(async move {
+                let arp = ctx.machine.protocol::<Arp>().expect("machine has Arp");
+                match c.sub {
+                    None => {
+                        arp.listen(Ipv4Address::from(c.ip));
+                        note(&ctx.log, format!("c06 listen {} {}", c.m, c.ip));
+                    }
+                    Some((bits, gw)) => {
+                        arp.set_subnet(Ipv4Address::from(c.ip), SubnetInfo::new(Ipv4Mask::from_bitcount(bits), Ipv4Address::from(gw)));
+                        note(&ctx.log, format!("c06 subnet {} {} {} {}", c.m, c.ip, bits, gw));
+                    }
+                }
+            })
+        }),
+    }
+}
+
+fn resolve_action(r: &Res) -> Action {
+    let r = r.clone();
+    Action {
+        at: Some(r.at),
+        kind: custom(move |ctx: Ctx| {
+            let r = r.clone();
+            Box::pin(async move {
+                let arp = ctx.machine.protocol::<Arp>().expect("machine has Arp");
+                let log = ctx.log.clone();
+                let machine = ctx.machine.clone();
+                // spawned: resolutions of one machine overlap
+                tokio::spawn(async move {
+                    note(&log, format!("c06 start {}", r.rid));
+                    let pair = AddressPair { local: Ipv4Address::from(r.local), remote: Ipv4Address::from(r.remote) };
+                    let mut fut = Box::pin(arp.resolve(pair, r.slot, machine));
+                    // one poll tells a call that returns at once from one that waits
+                    let first = std::future::poll_fn(|cx| Poll::Ready(fut.as_mut().poll(cx))).await;
+                    match first {
+                        Poll::Ready(x) => note(&log, format!("c06 imm {} {}", r.rid, res_str(&x.map_err(|_| ())))),
+                        Poll::Pending => {
+                            note(&log, format!("c06 pend {}", r.rid));
+                            let x = fut.await;
+                            note(&log, format!("c06 done {} {}", r.rid, res_str(&x.map_err(|_| ()))));
+                        }
+                    }
+                });
+            })
+        }),
+    }
+}
+
+fn trace_action(m: usize) -> Action {
+    Action {
+        at: None,
+        kind: custom(move |ctx: Ctx| {
+            Box::pin(async move {
+                let arp = ctx.machine.protocol::<Arp>().expect("machine has Arp");
+                let log = ctx.log.clone();
+                arp.verif_set_trace(Some(Arc::new(move |r: &ResolveRound| {
+                    note(&log, format!("c06 round {} {} {} {} {}", m, r.endpoints.local.to_u32(), r.endpoints.remote.to_u32(), r.slot, r.round));
+                })));
+            })
+        }),
+    }
+}
+
+struct Observed {
+    events: Vec<Event>,
+    macs: Vec<Vec<u64>>,
+    /// per machine: (local ips with subnet info, table)
+    snaps: Vec<(Vec<(u32, Option<(u32, u32)>)>, Vec<(u32, Option<u64>)>)>,
+}
+
+fn execute(case: &Case, mode: RtMode) -> Observed {
+    let machines: Vec<MachineSpec> = case
+        .slots
+        .iter()
+        .enumerate()
+        .map(|(m, k)| {
+            let mut script = vec![trace_action(m)];
+            script.extend(case.claims.iter().filter(|c| c.m == m).map(claim_action));
+            script.extend(case.resolves.iter().filter(|r| r.m == m).map(resolve_action));
+            MachineSpec { nets: vec![0; *k], arp: true, apps: vec![AppSpec { n: 0, script }], ..Default::default() }
+        })
+        .collect();
+    let sc = Scenario {
+        nets: vec![NetSpec { mtu: case.mtu, lat_us: (case.lat_us, 0), thr: (0, 0) }],
+        machines,
+        mode,
+        duration_us: case.dur_us,
+    };
+    let plan = case.plan.clone();
+    let counter = Arc::new(Mutex::new(0usize));
+    let planner: Planner = Arc::new(move |w: &WireSend| {
+        if w.target != Target::Arp {
+            return VerifFramePlan::Deliver;
+        }
+        let mut k = counter.lock().unwrap();
+        let p = plan.get(*k).copied().unwrap_or(Plan::Deliver);
+        *k += 1;
+        match p {
+            Plan::Deliver => VerifFramePlan::Deliver,
+            Plan::Drop => VerifFramePlan::Drop,
+            Plan::Delay(d) => VerifFramePlan::Delay(Duration::from_micros(d)),
+            Plan::Dup(d) => VerifFramePlan::Duplicate(Duration::from_micros(d)),
+        }
+    });
+    // real-time runs end once the log has been quiet for longer than a retry round
+    let quiesce = mode != RtMode::Paused;
+    let built = build(&sc, Some(planner), &|idx, m, log| {
+        if quiesce && idx == 0 {
+            m.with(Quiesce { log: log.clone(), active: true, stable_ms: (delay_us() / 1000) * 3 / 2 + 50 })
+        } else {
+            m
+        }
+    });
+    let log = built.log.clone();
+    let ms = built.machines.clone();
+    let dur = Duration::from_micros(sc.duration_us);
+    let _status = block_on_mode(sc.mode, async move {
+        log.start_clock();
+        run_internet_with_timeout(&ms, dur).await
+    });
+    for n in &built.networks {
+        n.verif_set_hook(None);
+    }
+    let snaps = built
+        .machines
+        .iter()
+        .map(|m| {
+            let arp = m.protocol::<Arp>().expect("machine has Arp");
+            arp.verif_set_trace(None);
+            let (ips, table) = arp.verif_snapshot();
+            (
+                ips.iter().map(|(ip, sn)| (ip.to_u32(), sn.map(|s| (s.mask.to_u32(), s.default_gateway.to_u32())))).collect(),
+                table.iter().map(|(ip, mac)| (ip.to_u32(), *mac)).collect(),
+            )
+        })
+        .collect();
+    Observed { events: built.log.snapshot(), macs: built.macs, snaps }
+}
+
+// ------------------------------------------------------------------------------------------
+// op lines + native oracle
+// ------------------------------------------------------------------------------------------
+
+/// independent decoder of the 28-byte ARP wire form
+struct Arp28 {
+    oper: u16,
+    smac: u64,
+    sip: u32,
+    tmac: u64,
+    tip: u32,
+}
+fn decode(b: &[u8]) -> Option<Arp28> {
+    if b.len() < 28 {
+        return None;
+    }
+    let u48 = |x: &[u8]| x.iter().fold(0u64, |a, v| (a << 8) | *v as u64);
+    Some(Arp28 {
+        oper: u16::from_be_bytes([b[6], b[7]]),
+        smac: u48(&b[8..14]),
+        sip: u32::from_be_bytes([b[14], b[15], b[16], b[17]]),
+        tmac: u48(&b[18..24]),
+        tip: u32::from_be_bytes([b[24], b[25], b[26], b[27]]),
+    })
+}
+
+fn prefix_mask(bits: u32) -> u32 {
+    if bits == 0 {
+        0
+    } else if bits >= 32 {
+        u32::MAX
+    } else {
+        u32::MAX << (32 - bits)
+    }
+}
+
+#[derive(Clone, Debug)]
+struct RState {
+    m: usize,
+    local: u32,
+    slot: u32,
+    expected_dest: u32,
+    dest: Option<u32>,
+    start_t: u64,
+    start_ev: usize,
+    rounds: Vec<u64>,
+    done: Option<(Result<u64, ()>, u64, usize)>,
+    /// was the destination claimed by some machine when the call started?
+    claimed_at_start: bool,
+}
+
+fn parse_res(w: &[&str]) -> Result<u64, ()> {
+    match w {
+        ["ok", m] => m.parse().map_err(|_| ()),
+        _ => Err(()),
+    }
+}
+
+fn mach_of_mac(macs: &[Vec<u64>], mac: u64) -> Option<usize> {
+    macs.iter().position(|ms| ms.contains(&mac))
+}
+
+fn run_case(case: &Case) -> CaseReport {
+    let mut rep = CaseReport::default();
+    for l in case.to_lines() {
+        rep.line(l, "cfg");
+    }
+    let obs = execute(case, RtMode::Paused);
+    let macs = &obs.macs;
+    rep.line(
+        format!("init {} {}", case.mtu.map(|m| m.to_string()).unwrap_or("-".into()), case.slots.iter().map(|s| s.to_string()).collect::<Vec<_>>().join(",")),
+        format!("macs {}", macs.iter().map(|ms| ms.iter().map(|m| m.to_string()).collect::<Vec<_>>().join(",")).collect::<Vec<_>>().join(";")),
+    );
+    let cfg_of: BTreeMap<usize, &Res> = case.resolves.iter().map(|r| (r.rid, r)).collect();
+    // natively tracked: local_ips per machine (ip -> subnet), resolver states
+    let mut ips: Vec<BTreeMap<u32, Option<(u32, u32)>>> = vec![BTreeMap::new(); case.slots.len()];
+    let mut rs: BTreeMap<usize, RState> = BTreeMap::new();
+    let owner_of = |ips: &Vec<BTreeMap<u32, Option<(u32, u32)>>>, ip: u32| -> Vec<usize> { (0..ips.len()).filter(|m| ips[*m].contains_key(&ip)).collect() };
+    let mut fails: Vec<(String, String)> = vec![];
+    let mut dropped_sends: Vec<u64> = vec![]; // times of dropped ARP frames
+    // deliveries of ARP packets to taps: (event id, time, machine, sender ip, sender mac)
+    let mut learned: Vec<(usize, u64, usize, u32, u64)> = vec![];
+    let ev = &obs.events;
+    let mut i = 0;
+    while i < ev.len() {
+        let e = &ev[i];
+        let t = e.t_us;
+        match &e.ev {
+            Ev::Note(s) if s.starts_with("c06 ") => {
+                let w: Vec<&str> = s.split_whitespace().collect();
+                match w.as_slice() {
+                    ["c06", "listen", m, ip] => {
+                        let (m, ip): (usize, u32) = (m.parse().unwrap(), ip.parse().unwrap());
+                        ips[m].entry(ip).or_insert(None);
+                        rep.line(format!("at {} listen {} {}", t, m, ip), "ok");
+                    }
+                    ["c06", "subnet", m, ip, bits, gw] => {
+                        let (m, ip, bits, gw): (usize, u32, u32, u32) = (m.parse().unwrap(), ip.parse().unwrap(), bits.parse().unwrap(), gw.parse().unwrap());
+                        ips[m].insert(ip, Some((bits, gw)));
+                        rep.line(format!("at {} subnet {} {} {} {}", t, m, ip, bits, gw), "ok");
+                    }
+                    ["c06", "start", rid] => {
+                        let rid: usize = rid.parse().unwrap();
+                        let r = cfg_of[&rid];
+                        // the property's configuration: the resolver answers for `local` from now on
+                        ips[r.m].entry(r.local).or_insert(None);
+                        let expected_dest = match ips[r.m][&r.local] {
+                            Some((bits, gw)) if (r.local & prefix_mask(bits)) != (r.remote & prefix_mask(bits)) => gw,
+                            _ => r.remote,
+                        };
+                        let mut st = RState {
+                            m: r.m,
+                            local: r.local,
+                            slot: r.slot,
+                            expected_dest,
+                            dest: None,
+                            start_t: t,
+                            start_ev: e.id,
+                            rounds: vec![],
+                            done: None,
+                            claimed_at_start: !owner_of(&ips, expected_dest).is_empty(),
+                        };
+                        // consume the events of the first poll
+                        let mut answer = String::from("lost-track");
+                        let mut j = i + 1;
+                        let mut consumed = i;
+                        while j < ev.len() {
+                            if let Ev::Note(s2) = &ev[j].ev {
+                                let w2: Vec<&str> = s2.split_whitespace().collect();
+                                match w2.as_slice() {
+                                    ["c06", "round", _m, _l, d, _s, "0"] => {
+                                        st.dest = d.parse().ok();
+                                        st.rounds.push(ev[j].t_us);
+                                        consumed = j;
+                                    }
+                                    ["c06", "imm", r2, rest @ ..] if r2.parse::<usize>().ok() == Some(rid) => {
+                                        let res = parse_res(rest);
+                                        answer = format!("done {}", res_str(&res));
+                                        st.done = Some((res, ev[j].t_us, ev[j].id));
+                                        consumed = j;
+                                        break;
+                                    }
+                                    ["c06", "pend", r2] if r2.parse::<usize>().ok() == Some(rid) => {
+                                        answer = format!("pending {}", st.dest.map(|d| d.to_string()).unwrap_or("?".into()));
+                                        consumed = j;
+                                        break;
+                                    }
+                                    _ => break,
+                                }
+                            } else {
+                                break;
+                            }
+                            j += 1;
+                        }
+                        rep.line(format!("at {} resolve {} {} {} {} {}", t, rid, r.m, r.local, r.remote, r.slot), answer);
+                        if let Some(d) = st.dest {
+                            if d != expected_dest {
+                                fails.push((
+                                    format!("resolution {} ({} -> {}) asks for {} but the subnet configuration prescribes {}", rid, fmt_addr(r.local), fmt_addr(r.remote), fmt_addr(d), fmt_addr(expected_dest)),
+                                    "gateway-decision".into(),
+                                ));
+                            }
+                        }
+                        rs.insert(rid, st);
+                        i = consumed;
+                    }
+                    ["c06", "round", m, local, dest, slot, k] => {
+                        let (m, local, dest, slot, k): (usize, u32, u32, u32, usize) = (m.parse().unwrap(), local.parse().unwrap(), dest.parse().unwrap(), slot.parse().unwrap(), k.parse().unwrap());
+                        // which resolution is this?  one of this machine that is waiting, has sent k
+                        // requests and whose time-out expires now
+                        let cand = rs.iter().find(|(_, st)| {
+                            st.m == m && st.local == local && st.slot == slot && st.dest == Some(dest) && st.done.is_none() && st.rounds.len() == k && st.rounds.last().map(|l| l + delay_us()) == Some(t)
+                        });
+                        match cand.map(|(rid, _)| *rid) {
+                            Some(rid) => {
+                                rs.get_mut(&rid).unwrap().rounds.push(t);
+                                rep.line(format!("at {} round {}", t, rid), format!("request {} {} {}", local, dest, k));
+                            }
+                            None => {
+                                rep.line(format!("at {} round ?", t), format!("request {} {} {}", local, dest, k));
+                                fails.push((format!("machine {} sends retry request #{} for {} at {} us which is no resolution's next round", m, k, fmt_addr(dest), t), "stray-round".into()));
+                            }
+                        }
+                    }
+                    ["c06", "done", rid, rest @ ..] => {
+                        let rid: usize = rid.parse().unwrap();
+                        let res = parse_res(rest);
+                        rep.line(format!("at {} done {}", t, rid), format!("done {}", res_str(&res)));
+                        if let Some(st) = rs.get_mut(&rid) {
+                            st.done = Some((res, t, e.id));
+                        }
+                    }
+                    _ => {}
+                }
+            }
+            Ev::Wire { to: None, smac, dst, target: Target::Arp, bytes, plan, .. } => {
+                let plan_word = if plan == "drop" { "drop" } else { "pass" };
+                rep.line(format!("at {} send {} {} {} {}", t, smac, fmt_mac(*dst), hex(bytes), plan_word), "ok");
+                rep.count(format!("plan.{}", plan.split(':').next().unwrap_or("")));
+                if plan == "drop" {
+                    dropped_sends.push(t);
+                }
+                // every ARP packet carries the sender's own (IP, MAC); replies come from owners only
+                match (decode(bytes), mach_of_mac(macs, *smac)) {
+                    (Some(p), Some(sm)) => {
+                        if p.smac != *smac || !ips[sm].contains_key(&p.sip) {
+                            fails.push((
+                                format!("machine {} (tap {}) sends an ARP packet announcing {} -> MAC {} which is not its own claimed address/MAC", sm, smac, fmt_addr(p.sip), p.smac),
+                                "foreign-mapping".into(),
+                            ));
+                        }
+                        if p.oper == 2 {
+                            rep.count("frames.reply");
+                            if *dst != Some(p.tmac) {
+                                fails.push((format!("ARP reply from machine {} addressed to {:?}, requester is {}", sm, dst, p.tmac), "reply-address".into()));
+                            }
+                        } else {
+                            rep.count("frames.request");
+                            if dst.is_some() {
+                                fails.push((format!("ARP request from machine {} is not broadcast", sm), "request-not-broadcast".into()));
+                            }
+                        }
+                    }
+                    _ => fails.push((format!("undecodable ARP frame {} from tap {}", hex(bytes), smac), "bad-frame".into())),
+                }
+            }
+            Ev::Wire { to: Some(to), smac, dst, target: Target::Arp, bytes, .. } => {
+                rep.line(format!("at {} deliver {} {} {} {}", t, smac, fmt_mac(*dst), hex(bytes), to), "ok");
+                if let (Some(p), Some(tm)) = (decode(bytes), mach_of_mac(macs, *to)) {
+                    learned.push((e.id, t, tm, p.sip, p.smac));
+                }
+                if let Some(d) = dst {
+                    if *d != 0xFFFF_FFFF_FFFF && d != to {
+                        fails.push((format!("frame addressed to MAC {} was handed to tap {}", d, to), "misdelivery".into()));
+                    }
+                }
+            }
+            _ => {}
+        }
+        i += 1;
+    }
+    // ---------- end of run: tables, pending resolutions ----------
+    let dump = obs
+        .snaps
+        .iter()
+        .map(|(ipl, tab)| {
+            format!(
+                "ips[{}] table[{}]",
+                ipl.iter().map(|(ip, sn)| format!("{}{}", ip, sn.map(|(m, g)| format!("/{}/{}", m, g)).unwrap_or_default())).collect::<Vec<_>>().join(","),
+                tab.iter().map(|(ip, mac)| format!("{}={}", ip, mac.map(|m| m.to_string()).unwrap_or("err".into()))).collect::<Vec<_>>().join(",")
+            )
+        })
+        .collect::<Vec<_>>()
+        .join(" | ");
+    let pending: Vec<String> = rs.iter().filter(|(_, st)| st.done.is_none()).map(|(rid, _)| rid.to_string()).collect();
+    rep.line(format!("end {}", case.dur_us), format!("end {} pending[{}] unseen=0", dump, pending.join(",")));
+
+    // ---------- native oracle: the property, from the configuration ----------
+    let owners_final = |ip: u32| owner_of(&ips, ip);
+    let mtu_ok = case.mtu.map(|m| m >= 28).unwrap_or(true);
+    for (rid, st) in rs.iter() {
+        let dest = st.expected_dest;
+        let who = owners_final(dest);
+        let desc = format!("resolution {} on machine {} of {} (local {})", rid, st.m, fmt_addr(dest), fmt_addr(st.local));
+        match &st.done {
+            None => {
+                if case.dur_us > st.start_t + budget_us() {
+                    fails.push((format!("{} started at {} us has not returned at {} us, the retry budget ended at {} us", desc, st.start_t, case.dur_us, st.start_t + budget_us()), "hang".into()));
+                }
+                rep.count("result.pending-at-end");
+            }
+            Some((Ok(mac), t, _)) => {
+                rep.count("result.ok");
+                let good = who.len() == 1 && macs[who[0]].contains(mac);
+                if !good {
+                    let whose = mach_of_mac(macs, *mac);
+                    fails.push((
+                        format!("{} returned MAC {} (a tap of machine {:?}); the address is claimed by machine(s) {:?} with MACs {:?}", desc, mac, whose, who, who.iter().map(|o| macs[*o].clone()).collect::<Vec<_>>()),
+                        if who.is_empty() { "ok-for-unclaimed".into() } else { "wrong-mac".into() },
+                    ));
+                }
+                if *t > st.start_t + budget_us() {
+                    fails.push((format!("{} returned after {} us, beyond the retry budget", desc, t - st.start_t), "late-answer".into()));
+                }
+                if dest != cfg_of[rid].remote {
+                    rep.count("result.ok-gateway");
+                }
+            }
+            Some((Err(()), t, done_ev)) => {
+                rep.count("result.err");
+                let window_end = st.start_t + budget_us();
+                if *t > window_end {
+                    fails.push((format!("{} failed after {} us, beyond the retry budget of {} us", desc, t - st.start_t, budget_us()), "late-failure".into()));
+                }
+                if who.len() == 1 {
+                    // (a) an exchange of the budget got through: the owner's mapping reached this
+                    //     machine while the budget was running
+                    //     (an answer handed over in the very instant the budget ends counts only if
+                    //     it was handed over before the call returned)
+                    let through = learned
+                        .iter()
+                        .find(|(id, lt, tm, sip, smac)| *tm == st.m && *sip == dest && *id > st.start_ev && (*lt < window_end || (*lt == window_end && id < done_ev)) && macs[who[0]].contains(smac));
+                    if let Some((_, lt, _, _, smac)) = through {
+                        let early = *done_ev < through.unwrap().0;
+                        fails.push((
+                            format!(
+                                "{} started at {} us returned Err at {} us although the owner's answer (MAC {}) reached the machine at {} us, within the retry budget (ends {} us){}",
+                                desc, st.start_t, t, smac, lt, window_end,
+                                if early { "; the call gave up before its own budget was used" } else { "" }
+                            ),
+                            if early { "err-before-budget-used".into() } else { "err-despite-exchange".into() },
+                        ));
+                    } else if st.claimed_at_start && mtu_ok && !dropped_sends.iter().any(|d| *d >= st.start_t && *d <= window_end) {
+                        // (b) the address was claimed before the call and nothing was lost during
+                        //     the budget: the resolution must succeed
+                        fails.push((
+                            format!("{} started at {} us returned Err at {} us; the address was claimed by machine {} before the call and no frame was lost during the retry budget ({} requests were sent)", desc, st.start_t, t, who[0], st.rounds.len()),
+                            if st.rounds.is_empty() { "err-from-stale-cache".into() } else { "err-lossfree".into() },
+                        ));
+                    }
+                }
+                if who.is_empty() && mtu_ok && st.rounds.len() as u64 == tries() && *t != window_end {
+                    fails.push((format!("{} used all {} rounds but failed at {} us instead of exactly {} us", desc, tries(), t, window_end), "failure-time".into()));
+                }
+            }
+        }
+        // retry rounds: one request every RESEND_DELAY while waiting, at most RESEND_TRIES
+        for (k, rt) in st.rounds.iter().enumerate() {
+            if *rt != st.start_t + k as u64 * delay_us() {
+                fails.push((format!("{}: request #{} was sent at {} us, expected {} us", desc, k, rt, st.start_t + k as u64 * delay_us()), "round-time".into()));
+            }
+        }
+        if st.rounds.len() as u64 > tries() {
+            fails.push((format!("{} sent {} requests, the budget is {}", desc, st.rounds.len(), tries()), "too-many-rounds".into()));
+        }
+        rep.count(format!("rounds.{}", st.rounds.len()));
+    }
+    // agreement: resolutions of one machine for one address that wait at the same time return
+    // the same answer
+    let v: Vec<(&usize, &RState)> = rs.iter().collect();
+    for a in 0..v.len() {
+        for b in a + 1..v.len() {
+            let (ra, sa) = v[a];
+            let (rb, sb) = v[b];
+            if sa.m != sb.m || sa.expected_dest != sb.expected_dest || sa.rounds.is_empty() || sb.rounds.is_empty() {
+                continue;
+            }
+            if let (Some((xa, ta, _)), Some((xb, tb, _))) = (&sa.done, &sb.done) {
+                let overlap = sa.start_t <= *tb && sb.start_t <= *ta;
+                if overlap {
+                    rep.count("concurrent-pairs");
+                    if let (Ok(ma), Ok(mb)) = (xa, xb) {
+                        if ma != mb || ta != tb {
+                            fails.push((
+                                format!("concurrent resolutions {} and {} of {} on machine {} returned MAC {} at {} us and MAC {} at {} us", ra, rb, fmt_addr(sa.expected_dest), sa.m, ma, ta, mb, tb),
+                                "disagreement".into(),
+                            ));
+                        }
+                    }
+                }
+            }
+        }
+    }
+    // all successful resolutions of one address agree on the owner
+    let mut by_dest: BTreeMap<u32, Vec<u64>> = BTreeMap::new();
+    for st in rs.values() {
+        if let Some((Ok(m), _, _)) = &st.done {
+            by_dest.entry(st.expected_dest).or_default().push(*m);
+        }
+    }
+    for (d, ms) in by_dest.iter() {
+        let owners: Vec<Option<usize>> = ms.iter().map(|m| mach_of_mac(macs, *m)).collect();
+        if owners.windows(2).any(|w| w[0] != w[1]) {
+            fails.push((format!("resolutions of {} returned MACs {:?} of different machines", fmt_addr(*d), ms), "disagreement".into()));
+        }
+    }
+    // non-trivial: some resolution needed the wire and an answer came through, plus a fault, a
+    // concurrent pair or a gateway substitution
+    let waited_ok = rs.values().any(|st| !st.rounds.is_empty() && matches!(st.done, Some((Ok(_), _, _))));
+    let spice = !dropped_sends.is_empty() || rep.counts.iter().any(|(k, _)| k == "concurrent-pairs" || k == "result.ok-gateway") || rs.values().any(|st| matches!(st.done, Some((Err(()), _, _))));
+    rep.nontrivial = waited_ok && spice;
+    rep.count(format!("machines.{}", case.slots.len()));
+    rep.count(format!("resolutions.{}", case.resolves.len().min(9)));
+    for (what, ident) in fails {
+        rep.fail(what, ident);
+    }
+    rep
+}
+
+// ------------------------------------------------------------------------------------------
+// multi_thread runtime (real time): oracle only
+// ------------------------------------------------------------------------------------------
+
+/// The same scenario on a multi_thread runtime with `workers` threads.  Time is real and the
+/// schedule is whatever the threads do, so nothing is replayed through the model; the oracle
+/// keeps the clauses that do not depend on exact instants: an answer is the owner's MAC, an
+/// unclaimed address is never answered, only owners announce/answer, no call outlives its budget,
+/// a claimed address on a loss-free LAN is resolved, concurrent answers agree.
+fn run_case_mt(case: &Case, workers: usize) -> CaseReport {
+    let mut rep = CaseReport::default();
+    for l in case.to_lines() {
+        rep.line(l, "cfg");
+    }
+    let t_real = std::time::Instant::now();
+    let obs = execute(case, RtMode::MultiThread(workers));
+    let macs = &obs.macs;
+    let cfg_of: BTreeMap<usize, &Res> = case.resolves.iter().map(|r| (r.rid, r)).collect();
+    let mut ips: Vec<BTreeMap<u32, Option<(u32, u32)>>> = vec![BTreeMap::new(); case.slots.len()];
+    struct R {
+        m: usize,
+        dest: u32,
+        start_t: u64,
+        claimed_at_start: bool,
+        done: Option<(Result<u64, ()>, u64)>,
+    }
+    let mut rs: BTreeMap<usize, R> = BTreeMap::new();
+    let mut fails: Vec<(String, String)> = vec![];
+    let mut dropped: Vec<u64> = vec![];
+    let mut learned: Vec<(u64, usize, u32, u64)> = vec![];
+    let slack = 400_000u64; // scheduling slack on a loaded machine, in real microseconds
+    for e in &obs.events {
+        let t = e.t_us;
+        match &e.ev {
+            Ev::Note(s) if s.starts_with("c06 ") => {
+                let w: Vec<&str> = s.split_whitespace().collect();
+                match w.as_slice() {
+                    ["c06", "listen", m, ip] => {
+                        ips[m.parse::<usize>().unwrap()].entry(ip.parse().unwrap()).or_insert(None);
+                    }
+                    ["c06", "subnet", m, ip, bits, gw] => {
+                        ips[m.parse::<usize>().unwrap()].insert(ip.parse().unwrap(), Some((bits.parse().unwrap(), gw.parse().unwrap())));
+                    }
+                    ["c06", "start", rid] => {
+                        let rid: usize = rid.parse().unwrap();
+                        let r = cfg_of[&rid];
+                        ips[r.m].entry(r.local).or_insert(None);
+                        let dest = match ips[r.m][&r.local] {
+                            Some((bits, gw)) if (r.local & prefix_mask(bits)) != (r.remote & prefix_mask(bits)) => gw,
+                            _ => r.remote,
+                        };
+                        let claimed = (0..ips.len()).any(|m| ips[m].contains_key(&dest));
+                        rs.insert(rid, R { m: r.m, dest, start_t: t, claimed_at_start: claimed, done: None });
+                    }
+                    ["c06", "imm", rid, rest @ ..] | ["c06", "done", rid, rest @ ..] => {
+                        if let Some(st) = rs.get_mut(&rid.parse::<usize>().unwrap()) {
+                            st.done = Some((parse_res(rest), t));
+                        }
+                    }
+                    _ => {}
+                }
+            }
+            Ev::Wire { to: None, smac, dst, target: Target::Arp, bytes, plan, .. } => {
+                if plan == "drop" {
+                    dropped.push(t);
+                }
+                match (decode(bytes), mach_of_mac(macs, *smac)) {
+                    (Some(p), Some(sm)) => {
+                        if p.smac != *smac || !ips[sm].contains_key(&p.sip) {
+                            fails.push((format!("machine {} (tap {}) sends an ARP packet announcing {} -> MAC {} which is not its own claimed address/MAC", sm, smac, fmt_addr(p.sip), p.smac), "foreign-mapping".into()));
+                        }
+                        if p.oper == 2 && *dst != Some(p.tmac) {
+                            fails.push((format!("ARP reply from machine {} addressed to {:?}, requester is {}", sm, dst, p.tmac), "reply-address".into()));
+                        }
+                    }
+                    _ => fails.push((format!("undecodable ARP frame {} from tap {}", hex(bytes), smac), "bad-frame".into())),
+                }
+            }
+            Ev::Wire { to: Some(to), target: Target::Arp, bytes, .. } => {
+                if let (Some(p), Some(tm)) = (decode(bytes), mach_of_mac(macs, *to)) {
+                    learned.push((t, tm, p.sip, p.smac));
+                }
+            }
+            _ => {}
+        }
+    }
+    let end_t = obs.events.last().map(|e| e.t_us).unwrap_or(0);
+    let mtu_ok = case.mtu.map(|m| m >= 28).unwrap_or(true);
+    let mut summary: Vec<String> = vec![];
+    for (rid, st) in rs.iter() {
+        let who: Vec<usize> = (0..ips.len()).filter(|m| ips[*m].contains_key(&st.dest)).collect();
+        let desc = format!("[multi_thread x{}] resolution {} on machine {} of {}", workers, rid, st.m, fmt_addr(st.dest));
+        match &st.done {
+            None => {
+                summary.push(format!("r{}=pending", rid));
+                if end_t > st.start_t + budget_us() + 2 * slack {
+                    fails.push((format!("{} started at {} us has not returned at {} us (budget {} us)", desc, st.start_t, end_t, budget_us()), "hang".into()));
+                }
+            }
+            Some((Ok(mac), t)) => {
+                summary.push(format!("r{}=ok", rid));
+                rep.count("result.ok");
+                if !(who.len() == 1 && macs[who[0]].contains(mac)) {
+                    fails.push((
+                        format!("{} returned MAC {} (a tap of machine {:?}); the address is claimed by machine(s) {:?}", desc, mac, mach_of_mac(macs, *mac), who),
+                        if who.is_empty() { "ok-for-unclaimed".into() } else { "wrong-mac".into() },
+                    ));
+                }
+                if *t > st.start_t + budget_us() + slack {
+                    fails.push((format!("{} returned after {} us, beyond the retry budget", desc, t - st.start_t), "late-answer".into()));
+                }
+            }
+            Some((Err(()), t)) => {
+                summary.push(format!("r{}=err", rid));
+                rep.count("result.err");
+                if *t > st.start_t + budget_us() + slack {
+                    fails.push((format!("{} failed after {} us, beyond the retry budget of {} us", desc, t - st.start_t, budget_us()), "late-failure".into()));
+                }
+                if who.len() == 1 {
+                    // the owner's mapping reached the machine clearly before the call gave up
+                    if let Some((lt, _, _, smac)) = learned.iter().find(|(lt, tm, sip, smac)| *tm == st.m && *sip == st.dest && *lt > st.start_t + slack / 8 && *lt + slack < *t && macs[who[0]].contains(smac)) {
+                        fails.push((format!("{} started at {} us returned Err at {} us although the owner's answer (MAC {}) reached the machine at {} us", desc, st.start_t, t, smac, lt), "err-despite-exchange".into()));
+                    } else if st.claimed_at_start && mtu_ok && dropped.is_empty() {
+                        fails.push((format!("{} started at {} us returned Err at {} us; the address was claimed before the call and no frame of the run was lost", desc, st.start_t, t), "err-lossfree".into()));
+                    }
+                }
+            }
+        }
+    }
+    let mut by_dest: BTreeMap<u32, Vec<u64>> = BTreeMap::new();
+    for st in rs.values() {
+        if let Some((Ok(m), _)) = &st.done {
+            by_dest.entry(st.dest).or_default().push(*m);
+        }
+    }
+    for (d, ms) in by_dest.iter() {
+        let owners: Vec<Option<usize>> = ms.iter().map(|m| mach_of_mac(macs, *m)).collect();
+        if owners.windows(2).any(|w| w[0] != w[1]) {
+            fails.push((format!("[multi_thread x{}] resolutions of {} returned MACs {:?} of different machines", workers, fmt_addr(*d), ms), "disagreement".into()));
+        }
+    }
+    rep.line(format!("mt {}", workers), summary.join(" "));
+    rep.nontrivial = rs.values().any(|st| matches!(st.done, Some((Ok(_), _)))) && case.resolves.len() >= 2;
+    rep.count(format!("workers.{}", workers));
+    rep.count_n("real_ms", t_real.elapsed().as_millis() as u64);
+    for (what, ident) in fails {
+        rep.fail(what, ident);
+    }
+    rep
+}
+
+/// scenarios for the real-time runs: everything claimed before the barrier, calls within the
+/// first 300 ms, light loss
+fn gen_mt(rng: &mut Rng) -> Case {
+    let mut c = gen(rng);
+    for cl in c.claims.iter_mut() {
+        cl.at = None;
+    }
+    c.claims.sort_by_key(|cl| cl.sub.is_none()); // set_subnet first, so that later plain listens keep it
+    for r in c.resolves.iter_mut() {
+        r.at = (r.at % (300 * MS)) / MS * MS;
+    }
+    c.resolves.truncate(5);
+    let loss = *rng.pick(&[0u64, 0, 0, 20, 50]);
+    c.plan = (0..40).map(|_| if rng.below(100) < loss { Plan::Drop } else if rng.chance(1, 10) { Plan::Delay(*rng.pick(&[MS, 20 * MS, 150 * MS])) } else { Plan::Deliver }).collect();
+    c.lat_us = *rng.pick(&[0u64, 0, MS]);
+    c.mtu = None;
+    c.dur_us = 300 * MS + budget_us() + 1500 * MS;
+    c
+}
+
+// ------------------------------------------------------------------------------------------
+// generator
+// ------------------------------------------------------------------------------------------
+
+const MS: u64 = 1000;
+
+fn gen(rng: &mut Rng) -> Case {
+    let n = match rng.below(10) {
+        0..=3 => 2 + rng.below(2) as usize,
+        4..=7 => 4 + rng.below(4) as usize,
+        _ => 8 + rng.below(5) as usize,
+    };
+    let slots: Vec<usize> = (0..n).map(|_| if rng.chance(1, 10) { 2 } else { 1 }).collect();
+    // address pool: shared prefixes so that masks matter, plus extremes
+    let nets: [u32; 5] = [0x0A00_0000, 0x0A00_0100, 0x0A01_0000, 0xC0A8_0100, 0xAC10_0080];
+    let mut used: Vec<u32> = vec![];
+    let fresh = |rng: &mut Rng, used: &mut Vec<u32>| -> u32 {
+        loop {
+            let ip = match rng.below(20) {
+                0 => 1,
+                1 => 0xFFFF_FFFE,
+                2 => 0x7FFF_FFFF,
+                3 => 0x8000_0000,
+                _ => *rng.pick(&nets) + 1 + rng.below(120) as u32,
+            };
+            if !used.contains(&ip) {
+                used.push(ip);
+                return ip;
+            }
+        }
+    };
+    let mut claims: Vec<Claim> = vec![];
+    let mut own: Vec<Vec<u32>> = vec![vec![]; n];
+    for m in 0..n {
+        let k = 1 + rng.below(3) as usize;
+        for _ in 0..k {
+            let ip = fresh(rng, &mut used);
+            own[m].push(ip);
+        }
+    }
+    let all: Vec<u32> = own.iter().flatten().copied().collect();
+    let masks: [u32; 12] = [0, 1, 8, 16, 23, 24, 25, 28, 30, 31, 32, 33];
+    for m in 0..n {
+        for (j, ip) in own[m].clone().iter().enumerate() {
+            // the first address of a machine is there from the start; others may appear later
+            let at = if j > 0 && rng.chance(1, 4) { Some(*rng.pick(&[100 * MS, 300 * MS, 1000 * MS, 2500 * MS])) } else { None };
+            let sub = if rng.chance(2, 5) {
+                let bits = if rng.chance(1, 3) { rng.below(33) as u32 } else { *rng.pick(&masks) };
+                let gw = match rng.below(10) {
+                    0 => fresh(rng, &mut used), // nobody is the gateway
+                    1 => *ip,                   // itself
+                    _ => *rng.pick(&all),       // some machine (maybe itself)
+                };
+                Some((bits, gw))
+            } else {
+                None
+            };
+            claims.push(Claim { m, ip: *ip, at, sub });
+            // a later plain listen must keep the subnet info; a later set_subnet replaces it
+            if rng.chance(1, 12) {
+                claims.push(Claim { m, ip: *ip, at: Some(50 * MS), sub: if rng.chance(1, 2) { None } else { Some((24, *rng.pick(&all))) } });
+            }
+        }
+    }
+    let k = match rng.below(10) {
+        0..=2 => 1,
+        3..=7 => 2 + rng.below(3) as usize,
+        _ => 5 + rng.below(4) as usize,
+    };
+    let mut resolves: Vec<Res> = vec![];
+    let burst_t = *rng.pick(&[0u64, 0, 10 * MS, 400 * MS]);
+    let burst = rng.chance(1, 2);
+    let target_pool: Vec<u32> = all.clone();
+    let mut rid = 0;
+    while resolves.len() < k {
+        let m = rng.below(n as u64) as usize;
+        let local = if rng.chance(1, 10) {
+            let ip = fresh(rng, &mut used); // an address first claimed by resolve itself
+            own[m].push(ip);
+            ip
+        } else {
+            *rng.pick(&own[m])
+        };
+        let remote = match rng.below(20) {
+            0 => local,                        // its own address
+            1 => *rng.pick(&own[m]),           // another address of itself
+            2..=4 => fresh(rng, &mut used),    // nobody's
+            _ => *rng.pick(&target_pool),
+        };
+        let at = if burst && !resolves.is_empty() && rng.chance(2, 3) {
+            burst_t
+        } else {
+            *rng.pick(&[0u64, 0, MS, 10 * MS, 150 * MS, 400 * MS, 1000 * MS, 1900 * MS, 2100 * MS, 3000 * MS])
+        };
+        let slot = rng.below(slots[m] as u64) as u32;
+        resolves.push(Res { rid, m, local, remote, slot, at });
+        rid += 1;
+        // concurrent resolvers of the same address (same machine or another one)
+        if rng.chance(1, 3) && resolves.len() < k {
+            let m2 = if rng.chance(1, 2) { m } else { rng.below(n as u64) as usize };
+            let l2 = *rng.pick(&own[m2]);
+            let at2 = if rng.chance(1, 2) { at } else { at + *rng.pick(&[MS, 100 * MS, 500 * MS, 1900 * MS]) };
+            resolves.push(Res { rid, m: m2, local: l2, remote, slot: rng.below(slots[m2] as u64) as u32, at: at2 });
+            rid += 1;
+        }
+    }
+    let loss = *rng.pick(&[0u64, 0, 10, 30, 50, 80, 100]);
+    let delays: [u64; 6] = [MS, 7 * MS, 50 * MS, 150 * MS, 199 * MS, 450 * MS];
+    let head_drop = if rng.chance(1, 4) { rng.below(12) as usize } else { 0 };
+    let plan: Vec<Plan> = (0..60)
+        .map(|i| {
+            if i < head_drop || rng.below(100) < loss {
+                Plan::Drop
+            } else {
+                match rng.below(10) {
+                    0 => Plan::Delay(*rng.pick(&delays)),
+                    1 => Plan::Dup(*rng.pick(&delays)),
+                    _ => Plan::Deliver,
+                }
+            }
+        })
+        .collect();
+    let last = resolves.iter().map(|r| r.at).max().unwrap_or(0);
+    Case {
+        mtu: match rng.below(25) {
+            0 => Some(28),
+            1 => Some(27),
+            2 => Some(1500),
+            _ => None,
+        },
+        lat_us: *rng.pick(&[0u64, 0, MS, 30 * MS]),
+        dur_us: last + budget_us() + 700 * MS,
+        slots,
+        claims,
+        resolves,
+        plan,
+    }
+}
+
+/// hand-made scenarios (each probes one clause)
+fn fixed_cases() -> Vec<Case> {
+    let ip = |s: &str| parse_addr(s).unwrap();
+    let (a, b, c) = (ip("10.0.0.1"), ip("10.0.0.2"), ip("10.0.1.3"));
+    let base = |claims: Vec<Claim>, resolves: Vec<Res>, plan: Vec<Plan>, slots: Vec<usize>| {
+        let last = resolves.iter().map(|r| r.at).max().unwrap_or(0);
+        Case { mtu: None, lat_us: 0, dur_us: last + budget_us() + 700 * MS, slots, claims, resolves, plan }
+    };
+    let cl = |m, ip, at, sub| Claim { m, ip, at, sub };
+    let rs = |rid, m, local, remote, at| Res { rid, m, local, remote, slot: 0, at };
+    vec![
+        // plain exchange, then a table hit
+        base(vec![cl(0, a, None, None), cl(1, b, None, None)], vec![rs(0, 0, a, b, 0), rs(1, 0, a, b, 5 * MS)], vec![], vec![1, 1]),
+        // nobody claims the address: Err after exactly the budget; the next call
+        base(vec![cl(0, a, None, None), cl(1, b, None, None)], vec![rs(0, 0, a, c, 0), rs(1, 0, a, c, 2500 * MS)], vec![], vec![1, 1]),
+        // the owner appears after a failed resolution (stale failure in the table)
+        base(vec![cl(0, a, None, None), cl(1, b, Some(2500 * MS), None)], vec![rs(0, 0, a, b, 0), rs(1, 0, a, b, 3000 * MS)], vec![], vec![1, 1]),
+        // a resolver that joins shortly before another one gives up
+        base(
+            vec![cl(0, a, None, None), cl(1, b, None, None)],
+            vec![rs(0, 0, a, b, 0), rs(1, 0, a, b, 1900 * MS)],
+            (0..10).map(|_| Plan::Drop).chain([Plan::Delay(150 * MS)]).collect(),
+            vec![1, 1],
+        ),
+        // resolving one's own address
+        base(vec![cl(0, a, None, None), cl(1, b, None, None)], vec![rs(0, 0, a, a, 0)], vec![], vec![1, 1]),
+        // gateway substitution: /24, target outside -> the gateway's MAC; target inside -> its own
+        base(
+            vec![cl(0, a, None, Some((24, b))), cl(1, b, None, None), cl(2, c, None, None), cl(2, ip("10.0.0.77"), None, None)],
+            vec![rs(0, 0, a, c, 0), rs(1, 0, a, ip("10.0.0.77"), 10 * MS)],
+            vec![],
+            vec![1, 1, 1],
+        ),
+        // an answer arriving exactly when the last time-out expires
+        base(
+            vec![cl(0, a, None, None), cl(1, b, None, None)],
+            vec![rs(0, 0, a, b, 0), rs(1, 0, a, b, 1000 * MS)],
+            (0..14).map(|_| Plan::Drop).chain([Plan::Drop, Plan::Delay(200 * MS)]).collect(),
+            vec![1, 1],
+        ),
+        // an owner with two taps answers twice
+        base(vec![cl(0, a, None, None), cl(1, b, None, None)], vec![rs(0, 0, a, b, 0), rs(1, 0, a, b, 0)], vec![], vec![1, 2]),
+    ]
+}
+
+const RULE: &str = "LANs of 2..12 machines (1-2 taps), 1-3 claimed addresses each (some appearing later, 40% with SubnetInfo: masks 0..33, gateway = some machine / nobody / itself), 1..8 resolutions (own, others', unclaimed and off-subnet targets; bursts of concurrent resolvers of one address on one or several machines), fault plan over the ARP frames in send order (loss 0..100%, leading drops, delays 1..450 ms, duplicates), latency 0/1/30 ms, MTU none/1500/28/27; paused-clock runtime; non-trivial = a resolution that had to wait got an answer and the case has a lost frame, a failed resolution, a concurrent pair or a gateway substitution; distinct = hash of the configuration lines";
+
+const RULE_MT: &str = "the generator of the main run restricted to claims made before the barrier, <= 5 calls within the first 300 ms, loss 0/20/50 %, on tokio multi_thread runtimes with 2/4/16 workers in real time (run ends when the log is quiet); oracle only (owner's MAC, never an unclaimed address, only owners announce, budget respected with 0.4 s scheduling slack, claimed + loss-free => Ok, agreement); non-trivial = >= 2 calls and an Ok answer";
+
+fn case_of_spec(spec: &str) -> Option<Case> {
+    if spec.starts_with("replay") {
+        return Case::from_lines(spec.lines().skip(1));
+    }
+    let w: Vec<&str> = spec.split_whitespace().collect();
+    match w.as_slice() {
+        ["fixed", k] => fixed_cases().get(k.parse::<usize>().ok()?).cloned(),
+        ["gen", seed] => Some(gen(&mut Rng::new(seed.parse().ok()?))),
+        ["genmt", seed, _workers] => Some(gen_mt(&mut Rng::new(seed.parse().ok()?))),
+        _ => None,
+    }
+}
+
+fn worker_case(spec: &str) -> CaseReport {
+    let mt_workers: Option<usize> = match spec.split_whitespace().collect::<Vec<_>>().as_slice() {
+        ["genmt", _, w] => w.parse().ok(),
+        ["replay", rest @ ..] => rest.iter().find_map(|x| x.strip_prefix("mt=")).and_then(|w| w.parse().ok()),
+        _ => None,
+    };
+    match case_of_spec(spec) {
+        Some(c) if mt_workers.is_some() => run_case_mt(&c, mt_workers.unwrap()),
+        Some(c) => run_case(&c),
+        None => {
+            let mut r = CaseReport::default();
+            r.line("cfg ?", "bad-spec");
+            r
+        }
+    }
+}
 
 pub fn run(args: &Args) {
-    eprintln!("hfull: {} not implemented yet", args.prop);
-    std::process::exit(2);
+    if is_worker(args) {
+        worker_loop(worker_case);
+        return;
+    }
+    let mut out = Out::new(&args.out);
+    let mt = args.prop == "c06-mt";
+    let specs: Vec<String> = if let Some(rp) = &args.replay {
+        let ops = read_ops(rp);
+        let head = match ops.iter().find_map(|l| l.strip_prefix("mt ")) {
+            Some(w) if mt => format!("replay mt={}", w.trim()),
+            _ => "replay".to_string(),
+        };
+        vec![format!("{}\n{}", head, ops.into_iter().filter(|l| l.starts_with("cfg ")).collect::<Vec<_>>().join("\n"))]
+    } else if mt {
+        let mut rng = Rng::new(args.seed);
+        (0..args.cases).map(|i| format!("genmt {} {}", rng.next(), [2usize, 4, 16][i as usize % 3])).collect()
+    } else {
+        let mut rng = Rng::new(args.seed);
+        let mut v: Vec<String> = (0..fixed_cases().len()).map(|k| format!("fixed {}", k)).collect();
+        v.extend((0..args.cases).map(|_| format!("gen {}", rng.next())));
+        v
+    };
+    // real-time cases mostly sleep: run more of them side by side
+    let (procs, batch) = if mt { (6, 4) } else { (default_workers(), 25) };
+    for (c, o) in run_cases(&args.prop, &specs, procs, batch, 120).iter().enumerate() {
+        out.begin_case(c as u64);
+        match o {
+            CaseOutcome::Done(rep) => rep.emit(&mut out),
+            died => {
+                let (line, ident) = died_ident(died);
+                if let Some(case) = case_of_spec(&specs[c]) {
+                    for l in case.to_lines() {
+                        out.line(&l, "cfg");
+                    }
+                }
+                out.line("crash", &line);
+                out.fail(&format!("the simulation process died while running case `{}`: {}", specs[c].lines().next().unwrap_or(""), ident), &ident);
+            }
+        }
+        out.end_case();
+    }
+    out.finish(if mt { RULE_MT } else { RULE });
 }
